@@ -2,13 +2,17 @@ package main
 
 import (
 	"fmt"
+	"go/ast"
 	"go/constant"
+	"go/importer"
+	"go/parser"
 	"go/token"
 	"go/types"
 	"sort"
 	"strings"
 
 	"golang.org/x/tools/go/ssa"
+	"golang.org/x/tools/go/ssa/ssautil"
 )
 
 // ---------------------------------------------------------------------------
@@ -428,6 +432,29 @@ func valueDesc(v ssa.Value) string {
 			return "local " + x.Comment
 		}
 		return "alloc"
+	case *ssa.Lookup:
+		return valueDesc(x.X) + "[...]"
+	case *ssa.IndexAddr:
+		return valueDesc(x.X) + "[i]"
+	case *ssa.Index:
+		return valueDesc(x.X) + "[i]"
+	case *ssa.MakeMap:
+		return "new map"
+	case *ssa.Phi:
+		if x.Comment != "" {
+			return "var " + x.Comment
+		}
+		return "phi"
+	case *ssa.ChangeType:
+		return valueDesc(x.X)
+	case *ssa.Convert:
+		return valueDesc(x.X)
+	case *ssa.MakeInterface:
+		return valueDesc(x.X)
+	case *ssa.TypeAssert:
+		return valueDesc(x.X)
+	case *ssa.Slice:
+		return valueDesc(x.X) + "[:]"
 	}
 	return fmt.Sprintf("%T", v)
 }
@@ -578,4 +605,24 @@ func loopHeaderOf(b *ssa.BasicBlock) *ssa.BasicBlock {
 		}
 	}
 	return nil
+}
+
+// buildSnippet type-checks and builds SSA for a tiny self-contained program
+// (positive controls for rules whose expected match count on /repo is zero).
+func buildSnippet(src, fnName string) (*ssa.Function, error) {
+	fset := token.NewFileSet()
+	f, err := parser.ParseFile(fset, "control.go", src, 0)
+	if err != nil {
+		return nil, err
+	}
+	pkg := types.NewPackage("p", "p")
+	spkg, _, err := ssautil.BuildPackage(&types.Config{Importer: importer.Default()}, fset, pkg, []*ast.File{f}, ssa.SanityCheckFunctions)
+	if err != nil {
+		return nil, err
+	}
+	fn := spkg.Func(fnName)
+	if fn == nil {
+		return nil, fmt.Errorf("function %s not found in control", fnName)
+	}
+	return fn, nil
 }
